@@ -351,6 +351,15 @@ def opStrictify : P String := do
   eol
   pure s!"ok {b2s (wfTiesB row)} {b2s (strictifyOkB row out (first == 1))}"
 
+/-- `strict2 m row… out… first` → `ok <strictOkB row out first>` (any numbering of the ties) -/
+def opStrict2 : P String := do
+  let m ← nat
+  let row ← rep optNat m
+  let out ← rep optNat m
+  let first ← nat
+  eol
+  pure s!"ok {b2s (strictOkB row out (first == 1))}"
+
 /-- `complete m row… out… mode` → `ok <wfIncompleteB row> <completeOkB row out mode>` -/
 def opComplete : P String := do
   let m ← nat
@@ -447,6 +456,7 @@ def dispatch : String → Option (P String)
   | "distortion" => some opDistortion
   | "ordinal" => some opOrdinal
   | "strictify" => some opStrictify
+  | "strict2" => some opStrict2
   | "complete" => some opComplete
   | "consistent" => some opConsistent
   | "generate" => some opGenerate
